@@ -2,17 +2,17 @@
 import json, os, subprocess, sys
 for name in sys.argv[1:]:
     pid, mid = name.split("-")
-    wt = f"/tmp/wt3/{pid}" if mid.startswith("r3") else f"/tmp/wt2/{pid}" if mid.startswith("r2") else f"/tmp/wt/{pid}"
+    wt = f"/tmp/wt4/{pid}" if mid.startswith("r4") else f"/tmp/wt3/{pid}" if mid.startswith("r3") else f"/tmp/wt2/{pid}" if mid.startswith("r2") else f"/tmp/wt/{pid}"
     meta_p = f"/verif/seeded/{name}/meta.json"
     meta = json.load(open(meta_p))
     if meta.get("suite_with_patch"):
         print(name, "already:", meta["suite_with_patch"]); continue
     subprocess.run("git checkout -- .", shell=True, cwd=wt)
     a = subprocess.run(["git", "apply", f"/verif/seeded/{name}/patch.diff"], cwd=wt)
-    p = subprocess.run("/venv/bin/python -m pytest -q -p no:cacheprovider -n 6 xgcm/test 2>&1 | tail -1", shell=True, cwd=wt,
+    p = subprocess.run("/venv/bin/python -m pytest -q -p no:cacheprovider -n 5 xgcm/test 2>&1 | tail -1", shell=True, cwd=wt,
                        env=dict(os.environ, PYTHONPATH=wt), capture_output=True, text=True)
     subprocess.run("git checkout -- .", shell=True, cwd=wt)
     meta["suite_with_patch"] = p.stdout.strip()
-    meta.setdefault("ran", []).append(f"cd {wt} && git apply patch.diff && PYTHONPATH={wt} /venv/bin/python -m pytest -q -p no:cacheprovider -n 6 xgcm/test -> {p.stdout.strip()}")
+    meta.setdefault("ran", []).append(f"cd {wt} && git apply patch.diff && PYTHONPATH={wt} /venv/bin/python -m pytest -q -p no:cacheprovider -n 5 xgcm/test -> {p.stdout.strip()}")
     json.dump(meta, open(meta_p, "w"), indent=1)
     print(name, p.stdout.strip(), flush=True)
